@@ -320,10 +320,13 @@ Definition timeslice_op (e : expr) (span : Z) (name : option str) (r : record)
   do v <- eval e (rdata r);
   match v with
   | VDate ns =>
-      if negb (in_i64 span) || (span <=? 0) || negb (in_i64 ns) then Err
+      (* on the nanosecond count, for every date and every slice length (fix fa5338c); a result outside
+         chrono's date range is an error *)
+      if span <=? 0 then Err
       else
         let out := match name with Some n => n | None => lit "_timeslice" end in
-        Ok (Some (rput out (VDate (ns - ns mod span)) r))
+        do d <- mk_date (ns - ns mod span);
+        Ok (Some (rput out d r))
   | _ => Err
   end.
 
